@@ -13,7 +13,7 @@ from droop.options import Options
 ID = 'C13'
 LEVEL = 'exploration'
 RULE_TEXT = ('(a) contract on the six Guarded comparison operators (== iff |a-b| < max(1,10^g/2), else raw order; exactly one of <,==,>): '
-             'for precision, guard in 0..6 every difference in {0,1,geps-1,geps,geps+1,2geps} x both signs x several bases is swept, plus random '
+             'for precision, guard in 0..6 (and guards up to 40 at three precisions) every difference in {0,1,geps-1,geps,geps+1,2geps} x both signs x several bases is swept, plus random '
              'operands; (b) Guarded(p, guard 0) vs Fixed(p): same raw result, same printed form, same comparison for every operation on grids '
              'and random operands, and wigm/meek/warren counts with omega/precision/display pinned give identical dumps and action lists; '
              '(c) guarded vs rational count of the same profile: whenever the guarded statistics satisfy maxDiff*10^3 <= geps <= minDiff/10^3 '
@@ -29,7 +29,9 @@ NUM = re.compile(r'-?\d+\.\d+(_\d+)?|-?\d+')
 
 
 def drive_comparisons(rec, rng, exhaustive):
-    pairs = [(p, g) for p in range(0, 7) for g in range(0, 7)] if exhaustive else [(rng.randint(0, 18), rng.randint(0, 12)) for _ in range(6)]
+    # guards far beyond everyday use too: anything that goes through a float stops being exact at 10^23
+    pairs = ([(p, g) for p in range(0, 7) for g in range(0, 7)] + [(p, g) for p in (0, 3, 9) for g in (9, 12, 15, 18, 20, 22, 23, 24, 25, 26, 27, 28, 30, 33, 36, 40)]) \
+        if exhaustive else [(rng.randint(0, 18), rng.choice([rng.randint(0, 12), rng.randint(13, 40)])) for _ in range(6)]
     for p, g in pairs:
         Guarded.initialize(Options(dict(arithmetic='guarded', precision=p, guard=g)))
         geps = guarded_geps()
@@ -111,7 +113,7 @@ def events_equal(r1, r2):
 
 def guard0_count(ctx, rng):
     rule = rng.choice(['wigm', 'wigm', 'meek', 'warren'])
-    p = rng.randint(0, 12) if rule == 'wigm' else rng.randint(3, 12)
+    p = rng.randint(0, 12) if rule == 'wigm' else rng.choice([1, 1, 2, 2, 3, 4, 5, 6, 8, 9, 12])
     og = dict(rule=rule, arithmetic='guarded', precision=p, guard=0)
     of = dict(rule=rule, arithmetic='fixed', precision=p)
     extra = {}
@@ -128,7 +130,7 @@ def guard0_count(ctx, rng):
         extra['display'] = rng.randint(0, p)
     og.update(extra)
     of.update(extra)
-    fam = dict(G8=1) if (rule != 'wigm' and rng.random() < 0.25) else dict(G1=3, G2=1, G3=2, G4=3, G6=1, G10=1)
+    fam = dict(G8=1, G8b=2) if (rule != 'wigm' and rng.random() < 0.4) else dict(G1=3, G2=1, G3=2, G4=3, G6=1, G10=1)
     s = gen.pick(rng, fam, False)
     blt = gen.render(s)
     r1 = do_count(blt, og, budget=stream.budget_for(ctx), render=True)
